@@ -83,7 +83,7 @@ TEXTS["C13"] = {
             "account is read back through the account cache (C13_read_after_flush), and after Commit + reopen (no caches) the same bytes are read from the database (C13_read_after_commit_reopen; "
             "Proofs/LedgerReads.lean). The end-to-end refinement to a plain map across flush / "
             "commit / eviction / reopen / rollback is decided by model correspondence (every getter, QueryByPrefix and the state roots bit for bit) plus a plain-map reference monitor on the real ledger. "
-            "Two defects found here were repaired by fix: commits (QueryByPrefix overlap; AddState not loading the committed value); known findings: empty values are not persisted, Query ignores the cache before commit. Proved for EVERY ledger state (Proofs/LedgerRevert.lean, Props/C13b.lean): GetState / GetBalance / GetNonce answer a pure view of the ledger (getState_peek …); a write changes what exactly one key reads (C13_write_changes_exactly_one_key), the latest write wins over any sequence of writes (C13_read_after_writes); RevertToSnapshot after any sequence of journaled writes (storage writes and deletes, balance, nonce; accounts loaded, loadable or created by the write) succeeds and every storage key, balance and nonce of every account reads what it read at snapshot time, journal and revision stack restored (C13_revert_restores_every_journaled_value); nested snapshots revert independently (C13_nested_snapshots_revert_independently). Not in the journal-undo proof: SetCode.",
+            "Two defects found here were repaired by fix: commits (QueryByPrefix overlap; AddState not loading the committed value); known findings: empty values are not persisted, Query ignores the cache before commit. Proved for EVERY ledger state (Proofs/LedgerRevert.lean, Props/C13b.lean): GetState / GetBalance / GetNonce answer a pure view of the ledger (getState_peek …); a write changes what exactly one key reads (C13_write_changes_exactly_one_key), the latest write wins over any sequence of writes (C13_read_after_writes); RevertToSnapshot after any sequence of journaled writes (storage writes and deletes, balance, nonce; accounts loaded, loadable or created by the write) succeeds and every storage key, balance and nonce of every account reads what it read at snapshot time, journal and revision stack restored (C13_revert_restores_every_journaled_value); nested snapshots revert independently (C13_nested_snapshots_revert_independently). Not in the journal-undo proof: SetCode. The prefix-query clause is proved (Proofs/LedgerQuery.lean): the result of QueryByPrefix is a reordering of the values of a finite map without duplicate keys that holds a key iff it starts with the prefix and GetState answers a present value for it, with exactly that answer — whether the value lives in the block's dirty set, the account cache or the database, and with keys deleted or emptied in an upper layer left out (C13_query_lists_exactly_the_live_keys, C13_query_sound, C13_query_complete); its hypotheses (ObjCoh: the block's account objects are coherent with the layers below; StoreWf: cache entries and the database are maps) are established by an empty / reopened ledger and kept by writes, flush and commit (C13_query_exact_in_and_after_a_block, StoreWf.flush / commit / reopen), and the model driver evaluates them at every query of every generated history (queryHypB, proved sound; model:qhyp=1 in the evidence).",
     "note": TB + " LevelDB, golang-lru (eviction = explicit op) are modelled; Keccak-256 is a parameter supplied by a table checked by the harness.",
     "technique": "Lean 4 theorems over an executable ledger model + differential correspondence (bit-exact roots) + plain-map reference monitor",
 }
@@ -135,7 +135,7 @@ TEXTS["C09"] = {
     "text": "Proved on the model of PersistExecutionResult and the getters for every consistent node and every block: the persisted block has height head+1 and the previous head hash as parent, the chain meta names "
             "it with the cumulative interchain count (C09_persist_links), it is found by height in both modes, by hash, by the height index, with its interchain meta and tx count (C09_persist_lookup), consistency "
             "is preserved and the append never goes out of order (C09_persist_consistent, C09_persist_total); after RollbackBlockChain(t) no block (either mode), height index entry or transaction count above t is found and the "
-            "chain meta names t (C09_rollback_clears_above_target, C09_ledger_rollback_clears_above_target; exact characterisation of the loop in Proofs/ChainRollback.lean). By-hash / by-transaction cleaning and tx/receipt lookups are decided by model correspondence on the real "
+            "chain meta names t (C09_rollback_clears_above_target, C09_ledger_rollback_clears_above_target; exact characterisation of the loop in Proofs/ChainRollback.lean). Over every history (Proofs/ChainLinked.lean): whatever blocks a node persisted and whatever rollbacks it went through, EVERY committed height h holds a block of height h that both read modes return, that the height index and the by-hash lookup agree on, whose parent is the hash of the block at h-1 (zero hash for the first), the chain meta names the head's hash, every transaction-meta entry points into a committed block that holds that transaction at that index, and nothing above the head is found (C09_history_chain_linked, C09_every_height_linked_and_indexed, C09_tx_lookup_agrees, C09_history_nothing_above_head; invariant Linked kept by persist and by the rollback loop) — assuming only that a new block's hash is not the hash of a stored block (no collision; evaluated by the model driver at every persist, model:fresh=1). Tx/receipt lookups against the code are decided by model correspondence on the real "
             "ledger (LevelDB + blockfile) and a model-free monitor that queries every getter for every known height/hash/tx after rollbacks. Two defects found here were repaired by fix: commits (GetBlockHash decoding; "
             "stale block-height entry after rollback).",
     "note": TB + " Block hashes are symbolic in the model; that the stored header's transaction root and receipt root ARE the Merkle roots of the stored transactions and receipts is decided on the real node after every block of the exec engine, by a reference tree written in the harness (refMerkleRoot) over what is read back from the store; the tree function itself is modelled and proved sensitive in C10.",
